@@ -261,6 +261,8 @@ theorem liquidate_inv {E : Env} {g : Int} {now : Int} {s s' : St} {keeper owner 
   unfold liquidate at h
   split at h
   · cases h
+  split at h
+  · cases h
   rename_i id c0 hf
   split at h
   · cases h
@@ -732,6 +734,20 @@ theorem runAuctions_inv {E : Env} {g : Int} {s s' : St} (hI : Inv E g s) (h : ru
   cases h
   exact ⟨r4.1, (r4.2.trans p3).trans p2⟩
 
+/-- the begin blocker only visits listed types, each with its own parameters -/
+theorem blockTypes_mem {E : Env} {facs : List Dec} {ty : Nat} {cp : CollParam} {f : Dec}
+    (hm : (ty, cp, f) ∈ blockTypes E facs) : E.P.colls[ty]? = some cp ∧ cp.active = true ∧ ty ∈ E.P.order := by
+  unfold blockTypes at hm
+  obtain ⟨t, ht, he⟩ := List.mem_filterMap.1 hm
+  split at he
+  · rename_i cp' hcp
+    split at he
+    · rename_i ha
+      cases he
+      exact ⟨hcp, ha, ht⟩
+    · cases he
+  · cases he
+
 theorem beginBlock_inv {E : Env} {g : Int} {now : Int} {skip : Bool} {facs : List Dec} {s s' : St}
     (hW : WF E) (hI : Inv E g s) (h : beginBlock E now skip facs s = .ok s') : Inv E g s' ∧ s'.price = s.price := by
   unfold beginBlock at h
@@ -739,10 +755,8 @@ theorem beginBlock_inv {E : Env} {g : Int} {now : Int} {skip : Bool} {facs : Lis
   · cases h
   · cases h
   rename_i s1 h1
-  have hall : ∀ ty cp f, (ty, cp, f) ∈ zipTypes E.P.colls facs → E.P.colls[ty]? = some cp := by
-    intro ty cp f hm
-    have := (zipFrom_mem _ _ _ _ _ _ hm).2
-    simpa using this
+  have hall : ∀ ty cp f, (ty, cp, f) ∈ blockTypes E facs → E.P.colls[ty]? = some cp :=
+    fun ty cp f hm => (blockTypes_mem hm).1
   obtain ⟨hI1, p1⟩ := bbTypes_inv hW _ s s1 hall hI h1
   split at h
   · cases h
